@@ -119,7 +119,7 @@ Proof.
     destruct (nth_error (w_ctxs w) (p_ctx P)) as [cx|]; [|simpl; eauto].
     destruct (nth_error (s_mgrs st) (c_mgr cx)) as [m0|] eqn:Em0; [|simpl; eauto].
     destruct j as [|j']; [simpl; eauto|].
-    destruct (nth_error (p_nodes P) j') as [[rid [f|p|g|h0|]]|] eqn:EN; simpl; eauto.
+    destruct (nth_error (p_nodes P) j') as [[rid [f|p|g|fi0|h0|]]|] eqn:EN; simpl; eauto.
     rewrite (nth_set_nth _ _ _ (delete_parts rid (length (p_parts P)) 0 m0) _ Em).
     destruct (Nat.eqb mi (c_mgr cx)) eqn:E; eauto.
     apply Nat.eqb_eq in E; subst. rewrite Em in Em0; inversion Em0; subst.
@@ -164,7 +164,8 @@ Lemma compute_timeout : forall now rn i src m, m_timeout (snd (fst (compute now 
 Proof.
   induction rn as [|[rid st] up IH]; intros i src m; simpl; auto.
   specialize (IH i src m).
-  destruct st as [f|p|g|h|].
+  destruct st as [f|p|g|fi|h|].
+  4: { destruct (compute now up i src m) as [[s m1] ev]; simpl in *; auto. }
   4: { destruct (compute now up i src m) as [[s m1] ev]; simpl in *; auto. }
   - destruct (compute now up i src m) as [[s m1] ev]; simpl in *; auto.
   - destruct (compute now up i src m) as [[s m1] ev]; simpl in *; auto.
